@@ -14,7 +14,9 @@ RULE = (
     "as POPULATION, PEEKABOO, _x, one-letter tags, doc comments, trailing ///) printed in a randomised free "
     "layout (stacked postfix operators, &! chains, every escape spelling, spaced PEEK[ a .. b ], ^ \"x\", "
     "nested block comments, leading |); (3) the 15 bundled .pest files; (4) single-token mutations (delete, "
-    "duplicate, swap, substitute from a vocabulary) of all of these. Oracle: the transcribed meta-grammar "
+    "duplicate, swap, substitute from a vocabulary) of all of these; (5) a deterministic matrix of 4,347 texts: "
+    "every escape form, intact and damaged (each hex digit position x characters a lenient integer parser "
+    "tolerates, truncations, wrong case, stray blanks), in every literal position. Oracle: the transcribed meta-grammar "
     "run by the reference evaluator decides validity (self-checked as a fix-point of tests/grammars/meta.pest "
     "in every run); Parser.from_grammar(text, optimizer=None) must accept exactly the valid texts (valid "
     "texts with a semantic hazard pest's validator would reject are skipped on the accept side), and for "
@@ -27,7 +29,7 @@ RULE = (
 ASSUMPTIONS = [
     "the transcription of the meta-grammar is trusted after its fix-point self-check",
     "semantic hazards (duplicate rules, reversed ranges, {0}, min > max, code points beyond U+10FFFF or "
-    "surrogates, rules named like built-ins or keywords) are not syntax: either outcome is accepted for them",
+    "surrogates, rules named like built-ins or keywords, numbers beyond pest's u32 / i32) are not syntax: either outcome is accepted for them",
 ]
 SIZES = {"quick": {"derive": 150, "free": 150, "mut": 4}, "thorough": {"derive": 4000, "free": 4000, "mut": 12}}
 NAMES = ["a", "b1", "_x", "POPULATION", "PEEKABOO", "DROPS", "POP_CORN", "PEEK_ALL_X", "ANYTHING", "EOIX", "rule_", "Z9",
